@@ -100,6 +100,32 @@ theorem C31_forEmpty_depends_on_map_order :
     commitDone .asShipped 4 1 [0, 1, 2, 3] c [0, 1, 2, 3] 1 = (1, false, true) ∧
     commitDone .asShipped 4 1 [0, 1, 2, 3] c [3, 0, 1, 2] 1 = (1, true, true) := by decide
 
+/-- `done` does not depend on the iteration order as long as no stored entry names the sentinel proposer `MaxUint32`
+(the commit-message path does not iterate a map at all; on the signature-count path "no verdict" means that no
+proposer has more than `N-(N-1)/3-1` non-empty endorse signatures, a property of the multiset of entries) -/
+theorem C31_done_order_independent (v : Variant) (N Csrv : Nat) (endorsers : List Nat) (c : Cand) (o1 o2 : List Nat)
+    (C : Nat) (hp : o1.Perm o2)
+    (hs : ∀ i sigs, lookup i c.endorseSigs = some sigs → ∀ s ∈ sigs, s.proposer ≠ maxU32) :
+    (commitDone v N Csrv endorsers c o1 C).2.2 = (commitDone v N Csrv endorsers c o2 C).2.2 := by
+  unfold commitDone
+  rcases getCommitConsensus v c.commitMsgs C N with ⟨p1, fe1⟩
+  simp only
+  by_cases hp1 : p1 = maxU32
+  · have hb : (p1 == maxU32) = true := by simp [hp1]
+    simp only [hb, if_true]
+    have key := cdOuter_done_order_independent (isEndorser N Csrv endorsers) (commitDone_C N) c.endorseSigs o1 o2 hp hs fe1
+    rcases h1 : cdOuter (isEndorser N Csrv endorsers) (commitDone_C N) (visit c.endorseSigs o1) 0 (fun _ => 0) fe1 with ⟨a1, b1⟩
+    rcases h2 : cdOuter (isEndorser N Csrv endorsers) (commitDone_C N) (visit c.endorseSigs o2) 0 (fun _ => 0) fe1 with ⟨a2, b2⟩
+    rw [h1, h2] at key
+    simp only at key ⊢
+    by_cases ha1 : a1 = maxU32
+    · have ha2 := key.mp ha1
+      simp [ha1, ha2]
+    · have ha2 : a2 ≠ maxU32 := fun e => ha1 (key.mpr e)
+      simp [ha1, ha2]
+  · have hb : (p1 == maxU32) = false := by simp [hp1]
+    simp [hb]
+
 /-- with entries naming the sentinel proposer `MaxUint32` even `done` depends on the order: the inner `break` on the
 sentinel skips the rest of that endorser's list -/
 theorem C31_done_depends_on_map_order_with_sentinel :
